@@ -106,6 +106,46 @@ static bool apply_vecgrow(Bytes &ub, bool dtls, int64_t aa, int64_t ab) {
     return true;
 }
 
+// Duplicate one extension of a hello message (record body = one whole handshake message).  which: index of the extension to copy; var: 0 = copy as is,
+// 1..3 = the copy's body cut to var bytes, 4 = first body byte of the copy altered, 5 = body cut to 0 bytes.  All enclosing lengths are adjusted.
+static bool apply_dupext(Bytes &ub, bool dtls, int64_t which, int64_t var) {
+    size_t hdr = dtls ? 13 : 5, hh = dtls ? 12 : 4;
+    if (ub.size() < hdr + hh + 40) { return false; }
+    unsigned char t = ub[hdr];
+    if (t != 1 && t != 2) { return false; }
+    size_t hslen = (size_t) ub[hdr + 1] << 16 | (size_t) ub[hdr + 2] << 8 | ub[hdr + 3];
+    if (hdr + hh + hslen != ub.size()) { return false; }
+    size_t p = hdr + hh + 2 + 32;                                  // version, random
+    if (p >= ub.size()) { return false; } p += 1 + ub[p];           // session id
+    if (t == 1) {
+        if (dtls) { if (p >= ub.size()) { return false; } p += 1 + ub[p]; }      // cookie
+        if (p + 2 > ub.size()) { return false; } p += 2 + ((size_t) ub[p] << 8 | ub[p + 1]);   // suites
+        if (p >= ub.size()) { return false; } p += 1 + ub[p];       // compression
+    } else { p += 3; }                                              // suite, compression
+    if (p + 2 > ub.size()) { return false; }
+    size_t extl_off = p, extl = (size_t) ub[p] << 8 | ub[p + 1]; p += 2;
+    if (p + extl != ub.size()) { return false; }
+    std::vector<std::pair<size_t, size_t> > ex;                    // (offset, total length incl. 4-byte header)
+    for (size_t q = p; q + 4 <= ub.size();) { size_t l = (size_t) ub[q + 2] << 8 | ub[q + 3]; if (q + 4 + l > ub.size()) { break; } ex.push_back({ q, 4 + l }); q += 4 + l; }
+    if (ex.empty()) { return false; }
+    auto e = ex[(uint64_t) which % ex.size()];
+    Bytes copy(ub.begin() + (long) e.first, ub.begin() + (long) (e.first + e.second));
+    int v = (int) ((uint64_t) var % 6);
+    if (v >= 1 && v <= 3 && copy.size() > 4 + (size_t) v) { copy.resize(4 + (size_t) v); }
+    else if (v == 5) { copy.resize(4); }
+    else if (v == 4 && copy.size() > 4) { copy[4] ^= 0x5a; }
+    copy[2] = (unsigned char) ((copy.size() - 4) >> 8); copy[3] = (unsigned char) (copy.size() - 4);
+    // a TLS 1.3 ClientHello must keep pre_shared_key last: put the copy right behind the original instead of at the end
+    ub.insert(ub.begin() + (long) (e.first + e.second), copy.begin(), copy.end());
+    size_t n = copy.size();
+    auto put = [&](size_t off, size_t w, size_t val) { for (size_t i = 0; i < w; i++) { ub[off + i] = (unsigned char) (val >> (8 * (w - 1 - i))); } };
+    put(extl_off, 2, extl + n); put(hdr + 1, 3, hslen + n);
+    if (dtls) { put(hdr + 9, 3, hslen + n); }
+    size_t nl = ub.size() - hdr, lo = dtls ? 11 : 3;
+    put(lo, 2, nl);
+    return true;
+}
+
 void ProtoRun::filter_record(Record &r, std::vector<Bytes> &out) {
     (void) out;   // everything goes through our own unit queue
     int dir = r.dir;
@@ -245,6 +285,13 @@ void ProtoRun::filter_record(Record &r, std::vector<Bytes> &out) {
             if (plain_hs && apply_vecgrow(u.b, pc.dtls(), a.a, a.b)) {
                 u.tampered = true; u.kind = a.kind; u.is_mod = is_mod;
                 obs.counters["fault.vecgrow_applied"]++;
+            }
+        } else if (a.kind == "dupext") {
+            // a ClientHello / ServerHello whose extension list carries one extension TWICE; the second copy as is, cut short, or with its first body byte changed
+            bool plain_hs = r.type == 22 && !ccs_emitted[dir] && (!pc.dtls() || r.epoch == 0);
+            if (plain_hs && apply_dupext(u.b, pc.dtls(), a.a, a.b)) {
+                u.tampered = true; u.kind = a.kind; u.is_mod = is_mod;
+                obs.counters["fault.dupext_applied"]++;
             }
         } else if (a.kind == "refrag") {
             // split a plaintext TLS handshake record into two records at a seeded offset (legal: handshake messages may span records)
